@@ -40,6 +40,7 @@ PROJECTS = {
     "glob_deep": ("f_glob", {"deep": 1}),
     "glob_names": ("f_glob", {"mode": "names", "cfg": 1}),
     "recycled_out": ("f_vol", {"log": "none"}),
+    "glob_multi": ("f_glob", {"mode": "multi"}),
 }
 # builds (restarts, no watching) that precede the watch session: here the plan ran again and
 # failed, so the step and its output are detached in the database when the watch session starts
@@ -63,12 +64,44 @@ TARGETS = {
     "glob_cfg": {"files": ["cfg.txt", "data/a.txt", "data/c.txt"], "dirs": ["data"]},
     "glob_names": {"files": ["data/a.txt", "data/b.txt", "data/c.txt"], "dirs": ["data"]},
     "recycled_out": {"files": ["out/deep/o.txt", "src.txt"], "dirs": ["out/deep", "out"]},
+    "glob_multi": {"files": ["data/a/inp.txt", "data/c/inp.txt"], "dirs": ["data/a", "data/c", "data"]},
     "glob_deep": {"files": ["src/pkg/mod/a.txt", "src/pkg/mod/c.txt"], "dirs": ["src/pkg", "src/pkg/mod"]},
     "glob_tree": {"files": ["data/a.txt", "data/c.txt", "out/a.out"], "dirs": ["data", "out"]},
     "glob_pattern": {"files": ["data/a.txt", "data/c.txt", "out/b.out"], "dirs": ["data"]},
     "subplan_tree": {"files": ["sub/data/in.txt", "sub/out/s.txt"], "dirs": ["sub/data", "sub/out"]},
     "chain": {"files": ["src.txt", "a.txt", "c.txt"], "dirs": []},
 }
+
+
+def new_directory_root_cause(files, ops, problems):
+    """Known root cause: a directory that did not exist when the watch session started is created
+    at a wildcard level of a registered pattern (data/c/ for data/${*n}/inp.txt). The low-level
+    watcher ignores a new directory it was never asked to watch, so the files in it are not seen
+    until the next restart. True when every difference is about such a directory or about the
+    step and output made for it."""
+    import os
+
+    initial_dirs = {os.path.dirname(p) for p in files}
+    new_dirs = {os.path.dirname(op[1]) for op in ops
+                if len(op) > 1 and op[0] in ("create", "modify", "recreate", "modify_restore", "restore")
+                and os.path.dirname(op[1]) and os.path.dirname(op[1]) not in initial_dirs}
+    if not new_dirs or "returncode" in problems:
+        return False
+    names = {os.path.basename(d) for d in new_dirs}
+
+    def about(text):
+        return any(f"{d}/" in text for d in new_dirs) or any(f"/{n}.out" in "/" + text for n in names)
+
+    if not all(about(k) for k in problems.get("files", {})):
+        return False
+    def node_ok(node):
+        # the tree that owns the new directory and the plan that globs (their product lists and
+        # recorded matches differ as a consequence)
+        if node.startswith("st:"):
+            return any((d + "/").startswith(node[3:]) for d in new_dirs)
+        return node == "step:./plan.py" or about(node)
+
+    return all(node_ok(str(d.get("node", ""))) for d in problems.get("graph", []))
 
 
 def projects_files(name):
@@ -326,7 +359,10 @@ def run_job(spec):
                 if ga != gb:
                     problems["graph"] = canon.diff_graphs(ga, gb, 5)
             if problems:
-                acc.violation(key + "|" + "+".join(sorted(problems)),
+                if name == "glob_multi" and new_directory_root_cause(files, ops, problems):
+                    key = "C14|new-directory-at-a-wildcard-level-of-a-pattern-is-not-watched"
+                    problems = dict(problems)
+                acc.violation(key + ("" if key.startswith("C14|new-directory") else "|" + "+".join(sorted(problems))),
                               {"project": name, "operations": ops, "during_build": spec["during_build"],
                                "rebuild_vs_restart": problems,
                                "watcher_reports": [r[:2] for r in obs.reports if r[0] in ("UPDATED", "DELETED", "UNCHANGED")][-12:],
